@@ -82,6 +82,44 @@ def _check_lon_range(g):
     return None
 
 
+class _SourceChanged(Exception):
+    pass
+
+
+def _open(ctx, Grid, ds, **kw):
+    """open a symbolic source and show that the reader left it as it was (values and attributes of every variable)"""
+    snap = {k: (ds[k].data.flat_list(), dict(ds[k].attrs)) for k in list(ds._vars)}
+    g = Grid.from_dataset(ds, **kw)
+    cl, names = [], sorted(ds._vars)
+    ok_struct = names == sorted(snap)
+    for k, (vals, attrs) in snap.items():
+        if k not in ds._vars:
+            continue
+        now = ds[k].data.flat_list()
+        ok_struct = ok_struct and len(now) == len(vals) and dict(ds[k].attrs) == attrs
+        for a, b in zip(now, vals):
+            sa, sb = isinstance(a, sc.Sym), isinstance(b, sc.Sym)
+            if not sa and not sb:
+                same = (a == b) or (isinstance(a, float) and isinstance(b, float) and a != a and b != b)
+                ok_struct = ok_struct and bool(same)
+            elif (not sa and isinstance(a, float) and a != a) or (not sb and isinstance(b, float) and b != b):
+                ok_struct = False          # a NaN slot became a number or vice versa
+            else:
+                cl.append(sc.z(a) == sc.z(b))
+    ctx.prove("the reader leaves the source dataset as it was (opening it again gives the same grid)", z3.And(z3.BoolVal(bool(ok_struct)), *cl) if cl else bool(ok_struct))
+    return g
+
+
+def _open_real(ux, ds, **kw):
+    before = ds.copy(deep=True)
+    g = ux.Grid.from_dataset(ds, **kw)
+    for k in before.variables:
+        if k not in ds.variables or not np.array_equal(np.asarray(before[k].values), np.asarray(ds[k].values), equal_nan=True) or dict(before[k].attrs) != dict(ds[k].attrs):
+            raise _SourceChanged(f"the reader modified the source dataset: variable '{k}' was {np.asarray(before[k].values).tolist()} {dict(before[k].attrs)}, "
+                                 f"is {np.asarray(ds[k].values).tolist() if k in ds.variables else 'gone'} {dict(ds[k].attrs) if k in ds.variables else ''}")
+    return g
+
+
 # ------------------------------------------------------------------ explicit topology arrays
 def make_topo(oid, fill_case, tiers=("quick", "thorough")):
     """Grid.from_topology(node_lon, node_lat, fn, fill_value, start_index): fill_case in
@@ -196,7 +234,7 @@ def make_ugrid(oid, si_case, fill_case, dtype, tiers=("quick", "thorough")):
         ds["nlat"] = symxr.DataArray(C.sarr_1d(lat, symnp.float64), dims=["nNodes"])
         ds["fnc"] = symxr.DataArray(arr, dims=["nFaces", "nMaxNodes"], attrs=attrs())
         Grid = world().get("uxarray.grid.grid", "Grid")
-        g = Grid.from_dataset(ds)
+        g = _open(ctx, Grid, ds)
         ctx.prove("sniffed as UGRID", g.source_grid_spec == "UGRID")
         got = g.face_node_connectivity.values
         _prove_table(ctx, "faces = source - start_index (0 when absent, the UGRID default), padding -> standard fill, platform int", got,
@@ -219,7 +257,7 @@ def make_ugrid(oid, si_case, fill_case, dtype, tiers=("quick", "thorough")):
         ds["nlon"] = xr.DataArray(np.array(v["lon"], dtype=float), dims=["nNodes"])
         ds["nlat"] = xr.DataArray(np.array(v["lat"], dtype=float), dims=["nNodes"])
         ds["fnc"] = xr.DataArray(arr, dims=["nFaces", "nMaxNodes"], attrs=attrs())
-        g = ux.Grid.from_dataset(ds)
+        g = _open_real(ux, ds)
         r = _check_faces(g, v["fn"], n_node)
         return (r + f" [UGRID start_index={si_case} _FillValue={fill_case} dtype={dtype} source {np.array(rows).tolist()}]") if r else None
 
@@ -274,7 +312,7 @@ def make_scrip(oid, lon_range, tiers=("quick", "thorough"), sizes=None, cost=5):
             ds["grid_imask"] = symxr.DataArray(symnp.array([1] * n_face), dims=["grid_size"])
             ds["grid_dims"] = symxr.DataArray(symnp.array([n_face]), dims=["grid_rank"])
             Grid = world().get("uxarray.grid.grid", "Grid")
-            g = Grid.from_dataset(ds)
+            g = _open(ctx, Grid, ds)
             ctx.prove("sniffed as SCRIP", g.source_grid_spec == "Scrip")
             got = g.face_node_connectivity.values.raw()
             ctx.prove("table shape", got.shape_cap == (n_face, n_max) and _int_dtype(g.face_node_connectivity.values))
@@ -311,7 +349,7 @@ def make_scrip(oid, lon_range, tiers=("quick", "thorough"), sizes=None, cost=5):
         ds["grid_imask"] = xr.DataArray(np.ones(n_face, dtype=np.int32), dims=["grid_size"])
         ds["grid_dims"] = xr.DataArray(np.array([n_face], dtype=np.int32), dims=["grid_rank"])
         try:
-            g = ux.Grid.from_dataset(ds)
+            g = _open_real(ux, ds)
             fnr = g.face_node_connectivity.values
             if fnr.dtype != np.intp:
                 return f"face_node_connectivity dtype {fnr.dtype}"
@@ -449,7 +487,7 @@ def make_icon(oid, tiers=("quick", "thorough")):
         for name, (dims, rows) in tables(voc, eoc, nci, aoe, ev, zmiss, lambda x, a, b: z3.If(x >= 0, a, b)).items():
             ds[name] = symxr.DataArray(symnp.SArr.new([mk(x) for r in rows for x in r], (len(rows), len(rows[0])), None, symnp.int32), dims=dims)
         Grid = world().get("uxarray.grid.grid", "Grid")
-        g = Grid.from_dataset(ds)
+        g = _open(ctx, Grid, ds)
         ctx.prove("sniffed as ICON", g.source_grid_spec == "ICON")
         for prop, ref in (("face_node_connectivity", voc), ("face_edge_connectivity", eoc), ("face_face_connectivity", nci),
                           ("edge_face_connectivity", aoe), ("edge_node_connectivity", ev)):
@@ -471,7 +509,7 @@ def make_icon(oid, tiers=("quick", "thorough")):
         for name, (dims, rows) in tables(v["voc"], v["eoc"], v["nci"], v["aoe"], v["ev"], miss, lambda x, a, b: a if x >= 0 else b).items():
             ds[name] = xr.DataArray(np.array(rows, dtype=np.int32), dims=dims)
         try:
-            g = ux.Grid.from_dataset(ds)
+            g = _open_real(ux, ds)
         except Exception as e:
             return f"ICON source raised {type(e).__name__}: {str(e)[:150]}"
         for prop, key in (("face_node_connectivity", "voc"), ("face_edge_connectivity", "eoc"), ("face_face_connectivity", "nci"),
@@ -511,7 +549,7 @@ def make_geos(oid, tiers=("quick", "thorough")):
         ds["lons"] = symxr.DataArray(A(lon, (nf, ny, nx)), dims=["nf", "Ydim", "Xdim"])
         ds["lats"] = symxr.DataArray(A(lat, (nf, ny, nx)), dims=["nf", "Ydim", "Xdim"])
         Grid = world().get("uxarray.grid.grid", "Grid")
-        g = Grid.from_dataset(ds)
+        g = _open(ctx, Grid, ds)
         ctx.prove("sniffed as GEOS-CS", g.source_grid_spec == "GEOS-CS")
         fn = g.face_node_connectivity.values
         ctx.prove("one quadrilateral per cell, platform integers", fn.shape_cap == (nf * ny * nx, 4) and _int_dtype(fn))
@@ -550,7 +588,7 @@ def make_geos(oid, tiers=("quick", "thorough")):
         ds["corner_lons"] = xr.DataArray(cl, dims=["nf", "YCdim", "XCdim"]); ds["corner_lats"] = xr.DataArray(ct, dims=["nf", "YCdim", "XCdim"])
         ds["lons"] = xr.DataArray(np.array(v["lon"], dtype=float).reshape(nf, ny, nx), dims=["nf", "Ydim", "Xdim"])
         ds["lats"] = xr.DataArray(np.array(v["lat"], dtype=float).reshape(nf, ny, nx), dims=["nf", "Ydim", "Xdim"])
-        g = ux.Grid.from_dataset(ds)
+        g = _open_real(ux, ds)
         fn = g.face_node_connectivity.values
         if fn.dtype != np.intp or fn.shape != (nf * ny * nx, 4):
             return f"GEOS-CS: face_node_connectivity dtype {fn.dtype} shape {fn.shape}"
@@ -601,7 +639,7 @@ def make_esmf(oid, si_case, tiers=("quick", "thorough"), dtype="int32"):
         conn_before = ds["elementConn"].data.flat_list()
         ds["numElementConn"] = symxr.DataArray(symnp.SArr.new([mk(x) for x in nf], (n_face,), None, symnp.int32), dims=["elementCount"])
         Grid = world().get("uxarray.grid.grid", "Grid")
-        g = Grid.from_dataset(ds)
+        g = _open(ctx, Grid, ds)
         ctx.prove("sniffed as ESMF", g.source_grid_spec == "ESMF")
         _prove_table(ctx, "faces = elementConn - start_index (1 when absent) on the first numElementConn entries, padding -> fill", g.face_node_connectivity.values,
                      [[fn[f][j] for j in range(n_max)] for f in range(n_face)], lambda f, j: j < nf[f], 0,
@@ -625,7 +663,7 @@ def make_esmf(oid, si_case, tiers=("quick", "thorough"), dtype="int32"):
             at["start_index"] = int(si_case)
         ds["elementConn"] = xr.DataArray(np.array(rows, dtype=np.int32 if dtype == "int32" else np.int64), dims=["elementCount", "maxNodePElement"], attrs=at)
         ds["numElementConn"] = xr.DataArray(np.array(v["fn_n"], dtype=np.int32), dims=["elementCount"])
-        g = ux.Grid.from_dataset(ds)
+        g = _open_real(ux, ds)
         r = _check_faces(g, v["fn"], n_node)
         if r:
             return r + f" [ESMF start_index={si_case} elementConn {rows}]"
@@ -692,7 +730,7 @@ def make_mpas(oid, dual, tiers=("quick", "thorough")):
             return symnp.SArr.new(vals, shp, None, symnp.int32 if kind == "i" else symnp.float64)
         ds = build(voc, ne, pad, eoc, coc, cov, voe, coe, R, dv, dc, area, mkarr, symxr.DataArray, symxr.Dataset)
         Grid = world().get("uxarray.grid.grid", "Grid")
-        g = Grid.from_dataset(ds, use_dual=dual)
+        g = _open(ctx, Grid, ds, use_dual=dual)
         ctx.prove("sniffed as MPAS", g.source_grid_spec == "MPAS")
         k = 180 / sc.lift(symnp.PI_Q)
         cellv = lambda c, j: j < ne[c]      # noqa: E731
@@ -748,7 +786,7 @@ def make_mpas(oid, dual, tiers=("quick", "thorough")):
         ds["dvEdge"] = xr.DataArray(mkarr(v["dvEdge"], "f"), dims=["nEdges"])
         ds["dcEdge"] = xr.DataArray(mkarr(v["dcEdge"], "f"), dims=["nEdges"])
         ds["areaCell"] = xr.DataArray(mkarr(v["areaCell"], "f"), dims=["nCells"])
-        g = ux.Grid.from_dataset(ds, use_dual=dual)
+        g = _open_real(ux, ds, use_dual=dual)
 
         def exp_tbl(t, valid):
             return np.array([[t[r][c] if valid(r, c) else F for c in range(len(t[0]))] for r in range(len(t))], dtype=np.intp)
@@ -809,7 +847,7 @@ def make_exodus(oid, layout, tiers=("quick", "thorough")):
             ds["dummy3"] = symxr.DataArray(symnp.array([0, 0, 0]), dims=["num_dim"])
         ds["connect1"] = symxr.DataArray(C.sarr_int(src), dims=["num_el_in_blk1", "num_nod_per_el1"], attrs={"elem_type": "SHELL4"})
         Grid = world().get("uxarray.grid.grid", "Grid")
-        g = Grid.from_dataset(ds)
+        g = _open(ctx, Grid, ds)
         ctx.prove("sniffed as Exodus", g.source_grid_spec == "Exodus")
         _prove_table(ctx, "faces = connect1 - 1, unused slots (0) -> fill", g.face_node_connectivity.values,
                      [[fn[f][j] for j in range(n_max)] for f in range(n_face)], lambda f, j: j < nf[f], 0)
@@ -832,7 +870,7 @@ def make_exodus(oid, layout, tiers=("quick", "thorough")):
             ds["coordz"] = xr.DataArray(X[2], dims=["num_nodes"])
             ds["dummy3"] = xr.DataArray(np.zeros(3), dims=["num_dim"])
         ds["connect1"] = xr.DataArray(np.array(rows, dtype=np.int32), dims=["num_el_in_blk1", "num_nod_per_el1"], attrs={"elem_type": "SHELL4"})
-        g = ux.Grid.from_dataset(ds)
+        g = _open_real(ux, ds)
         r = _check_faces(g, v["fn"], n_node)
         if r:
             return r + f" [Exodus connect1 {rows}]"
@@ -870,7 +908,7 @@ def make_exodus_blocks(oid, quad_first, tiers=("quick", "thorough")):
         for k, (et, rows) in enumerate(blocks(tri, quad), 1):
             ds[f"connect{k}"] = symxr.DataArray(C.sarr_int([[x + 1 for x in r] for r in rows]), dims=[f"num_el_in_blk{k}", f"num_nod_per_el{k}"], attrs={"elem_type": et})
         Grid = world().get("uxarray.grid.grid", "Grid")
-        g = Grid.from_dataset(ds)
+        g = _open(ctx, Grid, ds)
         exp, sizes = [], []
         for et, rows in blocks(tri, quad):
             for r in rows:
@@ -890,7 +928,7 @@ def make_exodus_blocks(oid, quad_first, tiers=("quick", "thorough")):
             ds[f"connect{k}"] = xr.DataArray(np.array([[x + 1 for x in r] for r in rows], dtype=np.int32), dims=[f"num_el_in_blk{k}", f"num_nod_per_el{k}"], attrs={"elem_type": et})
             exp += [list(r) + [F] * (4 - len(r)) for r in rows]
         try:
-            g = ux.Grid.from_dataset(ds)
+            g = _open_real(ux, ds)
         except Exception as e:
             return f"Exodus source with blocks {[(et, rows) for et, rows in blocks(tri, quad)]}: reader raised {type(e).__name__}: {str(e)[:120]}"
         r = _check_faces(g, exp, n_node)
@@ -1020,4 +1058,15 @@ def obligations(tier):
             make_scrip("C01.scrip.180", "180", tiers=("thorough",), cost=40), make_scrip("C01.scrip.360", "360", tiers=("thorough",), cost=100)]
     obs += [make_fill(f"C01.fill.{dt}.{fk}", dt, fk) for dt, fk in (("int64", "value"), ("int32", "value"), ("float64", "value"), ("int32", "none"))]
     obs += [make_sniff("C01.sniff")]
+    for o in obs:
+        o.replay = _catching(o.replay)
     return [o for o in obs if tier in o.tiers]
+
+
+def _catching(replay):
+    def wrapped(v):
+        try:
+            return replay(v)
+        except _SourceChanged as e:
+            return str(e)
+    return wrapped
